@@ -5,7 +5,7 @@ tie   : T-cor - the extracted model and the real containers (kit managers / allo
         (container kind, traits, operation, source/target state, ids, follow-up on the source) cases; the lines
         (final manager ids, moved-from flags, contents, element moves / copies seen, abort) must be identical
 oracle: the property predicate evaluated inside harness.cpp on the real code (independent of the model)."""
-import os, sys, importlib.util
+import os, sys, re, importlib.util
 
 INLINE = ['HashSetInl', 'TreeSetInl']     # inline crew (checkVersion = false, stateless manager), stateful traits: ids = traits states
 NATIVE = INLINE + ['Array', 'ArrayIC', 'Seg', 'HashSet', 'HashSetFast', 'HashSetOpen2', 'HashMap', 'HashMulti', 'TreeSet', 'TreeMap', 'DataTable']
@@ -401,7 +401,9 @@ def measure_distribution(cases, lines):
 GEN = ['gen_setcrew.json', 'gen_treeclear.json', 'gen_hashclear.json', 'gen_multiclear.json', 'gen_tableclear.json',
        # two-object functions (round 7): the second object's fields are extra parameters <param>_<field>
        'gen_setcrew2.json', 'gen_setcrewinl.json', 'gen_treeswap.json', 'gen_hashswap.json', 'gen_tableswap.json',
-       'gen_mempooldata.json', 'gen_mempoolswap.json']
+       'gen_mempooldata.json', 'gen_mempoolswap.json',
+       # round 8: move constructors end to end (a member's move constructor is followed into its own translation), HashMultiMap::Swap
+       'gen_multiswap.json', 'gen_treemove.json', 'gen_hashmove.json', 'gen_tablecrew.json', 'gen_tablemove.json']
 
 
 def gen_crew_contract(ctx):
@@ -507,6 +509,154 @@ def gen_mergeto_facts(ctx):
         return False
 
 
+def gen_assign_shapes(ctx):
+    """T-gen (AST facts): the body of operator=(X&&) and operator=(const X&) of TreeSet / HashSet / HashMultiMap / DataTable is
+    `X(std::move(x)).Swap(*this); return *this;` resp. `if (this != &x) X(x).Swap(*this); return *this;` -- a temporary built by
+    the move / copy constructor, Swap with *this, return.  Written to coq/Gen_AssignShapes.v as lists of step names; GenProofs3.v
+    proves they are the expected ones and composes the generated MoveCtor / Swap / pvDestroy accordingly."""
+    sys.path.insert(0, os.path.join(ctx.root, 'tools'))
+    import cxx2coq, json as _json
+    out = os.path.join(ctx.cdir, 'Gen_AssignShapes.v')
+    try:
+        lines = ['(* GENERATED by props/C14/prop.py (gen_assign_shapes) from the clang AST of inst.cpp -- do not edit *)',
+                 'From Coq Require Import List String.', 'Import ListNotations.', 'Local Open Scope string_scope.', '']
+        for cls, tag in (('TreeSet', 'tree'), ('HashSet', 'hash'), ('HashMultiMap', 'multi'), ('DataTable', 'table')):
+            cfg = {'tu': os.path.join(ctx.pdir, 'inst.cpp'), 'filter': cls, 'class': cls, 'includes': [os.path.join(ctx.repo, 'include')],
+                   'spec_with_method': 'Swap'}
+            objs = cxx2coq.load_objs(cxx2coq.dump_ast(cfg, ctx.repo))
+            spec = cxx2coq.find_spec(objs, cfg)
+            for kind, pat in (('move', '&&'), ('copy', 'const')):
+                ds = [d for d in cxx2coq.method_decls(spec, 'operator=') if (pat in d['type']['qualType'].split('(')[1])
+                      and ('&&' in d['type']['qualType'].split('(')[1]) == (kind == 'move')]
+                if len(ds) != 1:
+                    raise cxx2coq.TranslationError('%s::operator= (%s): %d candidates' % (cls, kind, len(ds)))
+                body = [x for x in ds[0]['inner'] if x['kind'] == 'CompoundStmt'][0]
+                steps = []
+                def step_of(st):
+                    st = cxx2coq.skip_wrappers(st)
+                    if st['kind'] == 'ReturnStmt':
+                        return 'return *this' if 'CXXThisExpr' in _json.dumps(st) else 'return'
+                    if st['kind'] == 'IfStmt':
+                        c = _json.dumps(st['inner'][0])
+                        guard = 'if this != &x: ' if ('CXXThisExpr' in c and '"opcode": "!="' in c) else 'if ?: '
+                        return guard + step_of(st['inner'][1])
+                    if st['kind'] == 'CompoundStmt' and len(st.get('inner', [])) == 1:
+                        return step_of(st['inner'][0])
+                    if st['kind'] == 'CXXMemberCallExpr':
+                        callee = cxx2coq.skip_wrappers(st['inner'][0])
+                        name = callee.get('name', '?')
+                        objj = _json.dumps(callee.get('inner', []))
+                        ctor = re.findall(r'"ctorType": \{"qualType": "([^"]*)"', objj)
+                        tmp = 'temp(' + ('move' if ctor and '&&' in ctor[0] else 'copy' if ctor and 'const' in ctor[0] else '?') + ')' if ctor else 'obj'
+                        arg = _json.dumps(st['inner'][1:])
+                        a = '*this' if ('CXXThisExpr' in arg and '"opcode": "*"' in arg) else '?'
+                        return '%s.%s(%s)' % (tmp, name, a)
+                    return st['kind']
+                for st in body.get('inner', []):
+                    steps.append(step_of(st))
+                lines.append('Definition %s_%s_assign_shape : list string := [%s].' % (tag, kind, '; '.join('"%s"' % x for x in steps)))
+        txt = '\n'.join(lines) + '\n'
+        if not os.path.exists(out) or open(out).read() != txt:
+            open(out, 'w').write(txt)
+        ctx.tie_obligations.append({'name': 'translate Gen_AssignShapes (bodies of the move / copy assignment operators)', 'ok': True})
+        return True
+    except Exception as e:
+        if os.path.exists(out): os.remove(out)
+        ctx.tie_obligations.append({'name': 'translate Gen_AssignShapes', 'ok': False, 'error': str(e)[:400]})
+        return False
+
+
+STDISH = [('um', 'unordered_map.h', 'unordered_map', 'pvCreateMap'), ('us', 'unordered_set.h', 'unordered_set', 'pvCreateSet'),
+          ('umm', 'unordered_multimap.h', 'unordered_multimap', 'pvCreateMultiMap'), ('m', 'map.h', 'map_base', 'pvCreateMap'),
+          ('s', 'set.h', 'set', 'pvCreateSet'), ('v', 'vector.h', 'vector', 'pvCreateArray')]
+
+
+def gen_stdish_decisions(ctx):
+    """T-gen for the stdish wrappers' assignment / swap decision logic.  The clang AST (inst_stdish.cpp: every wrapper over a
+    stateful allocator) locates, in operator=(X&&), operator=(const X&), swap and pvCreateX, the declarations `propagate`,
+    `alloc`, the self-assignment guard, the steal test and the swap assertion; their spelled source text (which names the trait:
+    the AST only says `value`) is turned into Gallina decision rules over PropagationModel.traits, written to
+    coq/Gen_StdishDecisions.v.  Anything that is not one of the expected atoms / operators is a translation error."""
+    sys.path.insert(0, os.path.join(ctx.root, 'tools'))
+    import cxx2coq, json as _json
+    out = os.path.join(ctx.cdir, 'Gen_StdishDecisions.v')
+    ATOMS = [('std::is_empty<allocator_type>::value', '(is_empty tr)'),
+             ('std::allocator_traits<allocator_type>::propagate_on_container_move_assignment::value', '(pocma tr)'),
+             ('std::allocator_traits<allocator_type>::propagate_on_container_copy_assignment::value', '(pocca tr)'),
+             ('std::allocator_traits<allocator_type>::propagate_on_container_swap::value', '(pocs tr)'),
+             ('get_allocator() == right.get_allocator()', 'eq')]
+    def off(loc):
+        return loc.get('offset', (loc.get('expansionLoc') or {}).get('offset'))
+    def text_of(n, src):
+        r = n['range']; b = off(r['begin']); e = off(r['end'])
+        tl = r['end'].get('tokLen', (r['end'].get('expansionLoc') or {}).get('tokLen', 0))
+        if b is None or e is None: raise cxx2coq.TranslationError('no source range')
+        return ' '.join(src[b:e + tl].split())
+    def boolexpr(t):
+        g = t
+        for a, b in ATOMS: g = g.replace(a, b)
+        g = g.replace('!', ' negb ')
+        if not re.fullmatch(r'[()|& ]*((\((is_empty|pocma|pocca|pocs) tr\)|eq|negb)[()|& ]*)*', g):
+            raise cxx2coq.TranslationError('decision expression not understood: ' + t)
+        return g
+    try:
+        lines = ['(* GENERATED by props/C14/prop.py (gen_stdish_decisions) from the clang AST of inst_stdish.cpp and the spelled source of',
+                 '   the located declarations -- do not edit *)', 'From Coq Require Import Bool.', 'From C14 Require Import PropagationModel.', '']
+        for tag, header, cls, create in STDISH:
+            src = open(os.path.join(ctx.repo, 'include', 'momo', 'stdish', header)).read()
+            cfg = {'tu': os.path.join(ctx.pdir, 'inst_stdish.cpp'), 'filter': cls, 'class': cls,
+                   'includes': [os.path.join(ctx.repo, 'include')], 'spec_with_method': 'swap'}
+            objs = cxx2coq.load_objs(cxx2coq.dump_ast(cfg, ctx.repo))
+            spec = cxx2coq.find_spec(objs, cfg)
+            def find(n, pred, acc):
+                if isinstance(n, dict):
+                    if pred(n): acc.append(n)
+                    for c in n.get('inner', []) or []: find(c, pred, acc)
+                return acc
+            lines.append('(* %s  (stdish/%s) *)' % (cls, header))
+            for kind in ('move', 'copy'):
+                ds = [d for d in cxx2coq.method_decls(spec, 'operator=') if cls in d['type']['qualType'].split('(')[1]
+                      and ('&&' in d['type']['qualType'].split('(')[1]) == (kind == 'move')]
+                if len(ds) != 1: raise cxx2coq.TranslationError('%s::operator= (%s): %d candidates' % (cls, kind, len(ds)))
+                d = ds[0]
+                vp = find(d, lambda n: n.get('kind') == 'VarDecl' and n.get('name') == 'propagate', [])
+                va = find(d, lambda n: n.get('kind') == 'VarDecl' and n.get('name') == 'alloc', [])
+                gi = find(d, lambda n: n.get('kind') == 'IfStmt', [])
+                if len(vp) != 1 or len(va) != 1 or len(gi) != 1: raise cxx2coq.TranslationError('%s::operator= (%s): unexpected shape' % (cls, kind))
+                pt = text_of([x for x in vp[0]['inner'] if isinstance(x, dict)][0], src)
+                at = text_of([x for x in va[0]['inner'] if isinstance(x, dict)][0], src)
+                gt = text_of(gi[0]['inner'][0], src)
+                lines.append('Definition %s_%s_propagate (tr : traits) : bool := %s.' % (tag, kind, boolexpr(pt)))
+                if at == '(propagate ? &right : this)->get_allocator()': af = 'propagate'
+                elif at == '(propagate ? this : &right)->get_allocator()': af = 'negb propagate'
+                else: raise cxx2coq.TranslationError('alloc initialiser not understood: ' + at)
+                lines.append('Definition %s_%s_alloc_from_right (propagate : bool) : bool := %s.   (* else: this->get_allocator() *)' % (tag, kind, af))
+                lines.append('Definition %s_%s_self_guard : bool := %s.' % (tag, kind, 'true' if gt == 'this != &right' else 'false'))
+            ds = cxx2coq.method_decls(spec, 'swap')
+            ft = text_of(ds[0], src)
+            m = re.search(r'MOMO_ASSERT\((.*?)\);', ft)
+            if not m: raise cxx2coq.TranslationError('%s::swap: no assertion' % cls)
+            lines.append('Definition %s_swap_assert (tr : traits) (eq : bool) : bool := %s.   (* eq = get_allocator() == right.get_allocator() *)' % (tag, boolexpr(m.group(1))))
+            ds = cxx2coq.method_decls(spec, create)
+            if len(ds) != 1: raise cxx2coq.TranslationError('%s::%s not found' % (cls, create))
+            ifs = find(ds[0], lambda n: n.get('kind') == 'IfStmt', [])
+            ct = text_of(ifs[0]['inner'][0], src)
+            if ct == 'right.get_allocator() == alloc': sv = 'true'
+            elif ct == 'right.get_allocator() != alloc': sv = 'false'
+            else: raise cxx2coq.TranslationError('%s steal test not understood: %s' % (create, ct))
+            lines.append('Definition %s_steal_when_equal : bool := %s.   (* %s: if (%s) return std::move(right.<nested>); else element-wise *)' % (tag, sv, create, ct))
+            lines.append('')
+        txt = '\n'.join(lines) + '\n'
+        if not os.path.exists(out) or open(out).read() != txt:
+            open(out, 'w').write(txt)
+        ctx.tie_obligations.append({'name': 'translate Gen_StdishDecisions (assignment / swap decision rules of the six stdish wrappers)', 'ok': True})
+        return True
+    except Exception as e:
+        if os.path.exists(out): os.remove(out)
+        ctx.tie_obligations.append({'name': 'translate Gen_StdishDecisions', 'ok': False, 'error': str(e)[:400]})
+        return False
+
+
 def run(ctx):
     scale = 1 if ctx.quick() else 4
     ctx.trusted += ['tools/cxx2coq.py + clang 14 JSON AST (Clear / pvDestroy of TreeSet, HashSet, HashMultiMap, DataTable; SetCrew::pvIsNull; crew accessor contract)',
@@ -521,6 +671,10 @@ def run(ctx):
         ctx.stage('regen', False, 'crew contract extraction failed')
     if not gen_mergeto_facts(ctx):
         ctx.stage('regen', False, 'MergeTo facts extraction failed')
+    if not gen_assign_shapes(ctx):
+        ctx.stage('regen', False, 'assignment shapes extraction failed')
+    if not gen_stdish_decisions(ctx):
+        ctx.stage('regen', False, 'stdish decision rules extraction failed')
     ctx.prove()
     ok_build = build_binaries(ctx)
     cases = gen_cases(ctx, scale)
